@@ -1241,6 +1241,10 @@ func funcValuesOf(v ssa.Value, d int) []*ssa.Function {
 // ---------------------------------------------------------------- struct fields as value carriers
 
 // originVal is a value that may flow into a location, with the instruction at which it is handed over.
+// addrOriginsWithEnv: fieldOfAddr records, for values written inside a constructor, what the constructor's parameters are
+// bound to at the call crossed (off by default: most consumers compare origins by canonical text).
+var addrOriginsWithEnv bool
+
 type originVal struct {
 	V  ssa.Value
 	At ssa.Instruction
@@ -1317,18 +1321,47 @@ func fieldOfAddr(base ssa.Value, i int, at ssa.Instruction, d int) ([]originVal,
 				return fieldOfAddr(b, i, at, d+1)
 			}
 		}
+		retIdx := 0
+		if ex, isEx := base.(*ssa.Extract); isEx {
+			// (st, err := openStore(opts)): result #0 of a constructor that can fail
+			if cl, isCall := ex.Tuple.(*ssa.Call); isCall {
+				base, retIdx = cl, ex.Index
+			}
+		}
 		if cl, isCall := base.(*ssa.Call); isCall && curProg != nil {
 			// pointer returned by a module constructor (newPlanCompiler(...)): the struct it allocates
-			if cal := calleeOf(&cl.Call); cal != nil && cal.Blocks != nil && curProg.InModule(cal) && cal.Signature.Results().Len() == 1 {
+			if cal := calleeOf(&cl.Call); cal != nil && cal.Blocks != nil && curProg.InModule(cal) && retIdx < cal.Signature.Results().Len() {
 				var out []originVal
 				for _, r := range returnsOf(cal) {
-					rv := returnedValue(r, 0)
+					if retIdx >= len(r.Results) {
+						return nil, false
+					}
+					rv := returnedValue(r, retIdx)
 					if isNilConst(rv) {
 						continue
 					}
 					sub, ok := fieldOfAddr(rv, i, at, d+1)
 					if !ok {
 						return nil, false
+					}
+					// values inside the constructor are expressed over its parameters: remember what this call binds them to
+					// (only for callers that read origins under their environment: see addrOriginsWithEnv)
+					for k := range sub {
+						if !addrOriginsWithEnv {
+							break
+						}
+						ne := env{}
+						for pk, pv := range sub[k].E {
+							ne[pk] = pv
+						}
+						for pi, prm := range cal.Params {
+							if pi < len(cl.Call.Args) {
+								if _, bound := ne[prm]; !bound {
+									ne[prm] = cl.Call.Args[pi]
+								}
+							}
+						}
+						sub[k].E = ne
 					}
 					out = append(out, sub...)
 				}
@@ -1340,7 +1373,7 @@ func fieldOfAddr(base ssa.Value, i int, at ssa.Instruction, d int) ([]originVal,
 				return fieldOfAddr(b, i, at, d+1)
 			}
 			// pointer parameter of a helper / receiver of a method: the struct each call site hands in
-			if sites := curProg.callers[prm.Parent()]; len(sites) > 0 && len(sites) <= 8 {
+			if sites := curProg.callers[prm.Parent()]; len(sites) > 0 && len(sites) <= 48 {
 				idx := paramIndex(prm)
 				var out []originVal
 				seenV := map[ssa.Value]bool{}
